@@ -52,7 +52,11 @@ extern "C" int LLVMFuzzerTestOneInput(const uint8_t *data, size_t size)
 	// f8String overload
 	if (mode == 1)
 	{
-		const f8String s(buf, sz);
+		// the string's spare capacity behind its terminator holds 0xAA bytes: a read past the end changes the sum whatever the heap held before
+		// (the result is then a function of the input alone and a saved artifact replays)
+		f8String s(sz + 96, '\xAA');
+		if (sz) memcpy(&s[0], buf, sz);
+		s.resize(sz);
 		const unsigned got2(Message::calc_chksum(s, offset, len));
 		if (got2 != want) { free(block); vfz::fail("calc_chksum(f8String) differs from byte sum"); }
 	}
